@@ -72,4 +72,90 @@ AFlatten(n) == IF n.k = "d" THEN [i \in 1..Len(n.e) |-> n.e[i].v] ELSE AFlattenS
 RECURSIVE AFlattenElems(_), AFlattenElemsSeq(_)
 AFlattenElemsSeq(s) == IF s = <<>> THEN <<>> ELSE AFlattenElems(Head(s)) \o AFlattenElemsSeq(Tail(s))
 AFlattenElems(n) == IF n.k = "d" THEN n.e ELSE AFlattenElemsSeq(n.c)
+
+\* ------------------------------------------------------------------ maps
+MPrefix(n) == IF n.inl THEN MapInlinedPrefix ELSE IF n.root THEN MapRootDataPrefix ELSE MapDataPrefix
+
+RECURSIVE MSumElems(_, _)
+MSumElems(el, extra) == IF el = <<>> THEN 0 ELSE extra + Head(el).sz + MSumElems(Tail(el), extra)
+
+StrictlyAscending(s) == \A i \in 1..(Len(s) - 1) : s[i] < s[i + 1]
+
+\* sizes, digests and levels inside one element list (recursively through groups)
+RECURSIVE MElsOK(_, _), MElemOK(_, _)
+MElsOK(E, lvl) ==
+  /\ E.lvl = lvl
+  /\ IF E.t = "h"
+     THEN /\ Len(E.hk) = Len(E.el) /\ StrictlyAscending(E.hk)
+          /\ E.sz = HkeyElementsPrefix + MSumElems(E.el, DigestSize)
+     ELSE /\ E.sz = SingleElementsPrefix + MSumElems(E.el, 0)
+          /\ \A i \in 1..Len(E.el) : E.el[i].t = "s"
+  /\ \A i \in 1..Len(E.el) : MElemOK(E.el[i], lvl)
+MElemOK(x, lvl) ==
+  CASE x.t = "s" -> x.sz = SingleElementPrefix + x.k[1].sz + x.v[1].sz
+    [] x.t = "g" -> /\ x.sz = InlineGroupPrefix + x.els[1].sz /\ MElsOK(x.els[1], lvl + 1)
+    [] x.t = "x" -> /\ x.sz = ExternalGroupSize
+                    /\ LET g == x.x[1] IN
+                       /\ g.k = "md" /\ g.any /\ g.cg /\ ~g.inl /\ ~g.root /\ g.nxt = 0
+                       /\ g.sz = MapDataPrefix + g.els[1].sz
+                       /\ MElsOK(g.els[1], lvl + 1)
+                       /\ g.fk = (IF Len(g.els[1].hk) > 0 THEN g.els[1].hk[1] ELSE 0)
+    [] OTHER -> FALSE
+
+\* per-element inline limits (C05): level-0 elements of size-limited slabs, keys and values of single elements
+RECURSIVE MLimitsEls(_, _)
+MLimitsEls(E, top) ==
+  \A i \in 1..Len(E.el) :
+    LET x == E.el[i] IN
+    /\ (top => x.sz <= MaxInlineMapElem(T))
+    /\ CASE x.t = "s" -> /\ x.k[1].sz <= MaxInlineMapKey(T) /\ x.v[1].sz <= MaxInlineMapValue(T, x.k[1].sz)
+         [] x.t = "g" -> MLimitsEls(x.els[1], FALSE)
+         [] x.t = "x" -> MLimitsEls(x.x[1].els[1], FALSE)
+         [] OTHER -> FALSE
+
+MSizeBandNode(n) == (n.inl \/ n.any) \/ (n.sz <= MaxT /\ (n.root \/ n.sz >= MinT))
+MDataNode(n) == n.k = "md" =>
+  /\ n.sz = MPrefix(n) + n.els[1].sz
+  /\ n.fk = (IF Len(n.els[1].hk) > 0 THEN n.els[1].hk[1] ELSE 0)
+  /\ MElsOK(n.els[1], 0)
+  /\ ~n.any /\ ~n.cg
+MLimitsNode(n) == n.k = "md" => MLimitsEls(n.els[1], TRUE)
+MMetaNode(n) == n.k = "mm" =>
+  /\ Len(n.h) = Len(n.c) /\ Len(n.c) >= 1
+  /\ \A i \in 1..Len(n.c) : n.h[i].id = n.c[i].id /\ n.h[i].sz = n.c[i].sz /\ n.h[i].fk = n.c[i].fk
+  /\ n.sz = MapMetaPrefix + MapHeaderSize * Len(n.h)
+  /\ n.fk = n.h[1].fk
+  /\ \A i \in 1..(Len(n.h) - 1) : n.h[i].fk < n.h[i + 1].fk
+  /\ (n.root => Len(n.c) >= 2)
+
+RECURSIVE MOwnNodes(_)
+MOwnNodes(n) == {n} \cup (IF n.k = "mm" THEN UNION {MOwnNodes(n.c[i]) : i \in 1..Len(n.c)} ELSE {})
+RECURSIVE MLeaves(_), MLeavesSeq(_)
+MLeavesSeq(s) == IF s = <<>> THEN <<>> ELSE MLeaves(Head(s)) \o MLeavesSeq(Tail(s))
+MLeaves(n) == IF n.k = "md" THEN <<n>> ELSE MLeavesSeq(n.c)
+MNextLinks(root) == LET ls == MLeaves(root) IN
+  /\ \A i \in 1..Len(ls) : ls[i].nxt = (IF i < Len(ls) THEN ls[i + 1].id ELSE 0)
+  /\ \A i \in 1..(Len(ls) - 1) : /\ ls[i].fk < ls[i + 1].fk
+                                  /\ Len(ls[i].els[1].hk) > 0
+                                  /\ ls[i].els[1].hk[Len(ls[i].els[1].hk)] < ls[i + 1].fk
+
+\* entries in traversal order: <<key element, value element>>
+RECURSIVE MEntriesEls(_), MEntriesSeq(_)
+MEntriesSeq(el) == IF el = <<>> THEN <<>>
+                   ELSE LET x == Head(el) IN
+                        (CASE x.t = "s" -> <<<<x.k[1], x.v[1]>>>>
+                           [] x.t = "g" -> MEntriesEls(x.els[1])
+                           [] x.t = "x" -> MEntriesEls(x.x[1].els[1])
+                           [] OTHER -> <<>>) \o MEntriesSeq(Tail(el))
+MEntriesEls(E) == MEntriesSeq(E.el)
+RECURSIVE MEntriesLeaves(_)
+MEntriesLeaves(ls) == IF ls = <<>> THEN <<>> ELSE MEntriesEls(Head(ls).els[1]) \o MEntriesLeaves(Tail(ls))
+MEntries(root) == MEntriesLeaves(MLeaves(root))
+
+\* C05 oracle on one map tree
+MapWellFormed(root) ==
+  /\ \A n \in MOwnNodes(root) : MSizeBandNode(n) /\ MLimitsNode(n) /\ MMetaNode(n) /\ MDataNode(n)
+  /\ MNextLinks(root)
+  /\ root.cnt = Len(MEntries(root))
+MapSizesAgree(root) == \A n \in MOwnNodes(root) : MDataNode(n) /\ MMetaNode(n)
 =============================================================================
